@@ -12,9 +12,9 @@ LOGIN_TYPES = ('login', 'login-ipr', 'combined')
 
 # ---- client universe -------------------------------------------------------------------------------
 CLIENTS = {
-    1: dict(addr='10.0.0.1', port=1111, laddr='10.9.9.9', lport=6667, host='host1.example.net', ident='ident1',
+    1: dict(addr='10.0.0.1', port=1111, addr2='2001:db8:0:1::77', port2=7001, laddr='10.9.9.9', lport=6667, host='host1.example.net', ident='ident1',
             nick='Nick1', user='user1', real='Real Name 1'),
-    2: dict(addr='2001:db8::2', port=2222, laddr='10.9.9.9', lport=6667, host='host2.example.org', ident='ident2',
+    2: dict(addr='2001:db8::2', port=2222, addr2='10.22.0.2', port2=7002, laddr='10.9.9.9', lport=6667, host='host2.example.org', ident='ident2',
             nick='Nick2', user='user2', real='Real Name 2'),
     3: dict(addr='192.168.3.3', port=3333, laddr='10.9.9.9', lport=6667, host='host3.example.com', ident='ident3',
             nick='Nick3', user='user3', real='Real Name 3'),
@@ -32,6 +32,8 @@ PASSWORDS = {
     'bang': ('+! acctB passB', True),
     'nobang': ('-! acctC passC', True),
     'xbang': ('+x! acctD pass D', True),
+    'rebang': ('-!+! acctE passE', True),      # a mode cleared and set again within one prefix: net effect +!
+    'bangword': ('+! hunter2', False),          # mode prefix followed by a single word: not of the <modes> <account> <password> shape
     'nopass': ('nopass', False),
     'onlyacct': ('+x onlyacct', False),
     'hello': ('hello world', False),
@@ -98,6 +100,8 @@ def render(ev, ctx):
     c = CLIENTS[i]
     if k == 'C':
         return ('L', '%d C %s %d %s %d\n' % (i, c['addr'], c['port'], c['laddr'], c['lport']))
+    if k == 'C2':       # the same id announced from another address and port
+        return ('L', '%d C %s %d %s %d\n' % (i, c['addr2'], c['port2'], c['laddr'], c['lport']))
     if k == 'N':
         return ('L', '%d N %s\n' % (i, c['host']))
     if k == 'd':
@@ -292,12 +296,19 @@ def class_reference(rules, attrs):
 # ---- the observer ---------------------------------------------------------------------------------
 # per-instance record (all hashable)
 Inst = namedtuple('Inst', 'softdone have hurry owed expired modes creds stamp vouched xvouched msent '
-                          'refused pcount more_pending queried oksvc')
+                          'refused pcount more_pending queried oksvc alt')
+
+
+def caddr(c, inst):
+    """(address, port) the server announced for this instance."""
+    if inst is not None and inst.alt:
+        return c['addr2'], c['port2']
+    return c['addr'], c['port']
 
 
 def fresh_inst():
     return Inst(False, frozenset(), False, frozenset(), False, frozenset(), None, False, frozenset(), False,
-                False, False, 0, frozenset(), frozenset(), frozenset())
+                False, False, 0, frozenset(), frozenset(), frozenset(), False)
 
 
 class World:
@@ -373,18 +384,19 @@ def expected_queries(w, i, svc, inst, kind):
     """Reference rendering of the query text(s) for service svc (kind: 'first'|'relogin')."""
     c = CLIENTS[i]
     st = w.stype[svc]
-    host = c['host'][:63] if 'N' in inst.have else c['addr']
+    addr = caddr(c, inst)[0]
+    host = c['host'][:63] if 'N' in inst.have else addr
     user = expected_user(c, inst)
     nick = c['nick'][:30] if 'n' in inst.have else ''
     real = c['real'][:50] if 'U' in inst.have else ''
     out = []
     if st in ('dronecheck', 'combined'):
-        out.append('CHECK %s %s %s %s :%s' % (nick, user, c['addr'], host, real))
+        out.append('CHECK %s %s %s %s :%s' % (nick, user, addr, host, real))
     if inst.creds is not None:
         if st in ('login', 'combined'):
             out.append('LOGIN %s' % inst.creds)
         elif st == 'login-ipr':
-            out.append('LOGIN2 %s %s %s %s' % (c['addr'], host, user, inst.creds))
+            out.append('LOGIN2 %s %s %s %s' % (addr, host, user, inst.creds))
     return out
 
 
@@ -408,10 +420,12 @@ def step(w, M, ev, ctx_pre, new_serial, out_lines, addr_check=True):
         ready_before = {s: ready(w, t, inst) for s, t in w.services}
 
     # ---- input effects ------------------------------------------------------------------------
-    if k == 'C':
+    if k in ('C', 'C2'):
         if inst is not None:
             W.add('reannounce-live')
-        inst = fresh_inst()
+            if inst.alt != (k == 'C2'):
+                W.add('reannounce-other-address')
+        inst = fresh_inst()._replace(alt=(k == 'C2'))
         serials[i] = new_serial
         st[i] = inst
         ready_before = {s: False for s, t in w.services}
@@ -468,7 +482,7 @@ def step(w, M, ev, ctx_pre, new_serial, out_lines, addr_check=True):
         else:
             reply_for = (svc, rk)
             W.add('reply-' + rk)
-            stype = w.stype[svc]
+            stype = w.stype.get(svc, 'login')
             inst = inst._replace(owed=inst.owed - {svc})
             if inst.expired:
                 W.add('reply-after-timeout')
@@ -521,8 +535,9 @@ def step(w, M, ev, ctx_pre, new_serial, out_lines, addr_check=True):
                 else:
                     V.append(('C01.line-after-end', 'line %r names client %d which is not live' % (line, j)))
                 continue
-            if p.port != cj['port'] or (addr_check and not same_address(p.ip, cj['addr'])):
-                V.append(('C09.wrong-address', 'line %r does not carry the announced address/port %s %d' % (line, cj['addr'], cj['port'])))
+            wa, wp = caddr(cj, cur)
+            if p.port != wp or (addr_check and not same_address(p.ip, wa)):
+                V.append(('C09.wrong-address', 'line %r does not carry the announced address/port %s %d' % (line, wa, wp)))
             if i is not None and j != i:
                 V.append(('C07.cross-client', 'event %s produced %r naming another client' % (ev_str(ev), line)))
             if p.cmd == 'd':
@@ -560,7 +575,7 @@ def step(w, M, ev, ctx_pre, new_serial, out_lines, addr_check=True):
                 if p.cmd == 'R' and cur.stamp and cur.xvouched and not cur.msent:
                     V.append(('C05.no-plus-x', 'client asked for +x and was stamped, but no M +x was sent before %r' % line))
                 want_cls, _tr = class_reference(w.rules, dict(
-                    account=acct, addr=cj['addr'], ident=(cj['ident'][:10] if 'u' in cur.have else ''),
+                    account=acct, addr=caddr(cj, cur)[0], ident=(cj['ident'][:10] if 'u' in cur.have else ''),
                     host=(cj['host'][:63] if 'N' in cur.have else ''), ok_services=cur.oksvc))
                 if cls != want_cls:
                     V.append(('C05.wrong-class', 'accepted with class %r, the rules give %r (%r)' % (cls, want_cls, line)))
@@ -588,7 +603,9 @@ def step(w, M, ev, ctx_pre, new_serial, out_lines, addr_check=True):
             if i is not None and j != i:
                 V.append(('C07.cross-client', 'event %s produced query %r for another client' % (ev_str(ev), line)))
             if p.svc not in w.stype:
+                # not in the table the search started with (a reload may have added it): judged by C06 only; the debt is real either way
                 V.append(('C06.unknown-service', 'query %r to a service that is not configured' % line))
+                st[j] = cur._replace(owed=cur.owed | {p.svc}, queried=cur.queried | {p.svc})
                 continue
             stype = w.stype[p.svc]
             W.add('query-' + p.text.split(' ')[0])
